@@ -344,6 +344,10 @@ func (fs *memFS) RemoveAll(ctx context.Context, name string) error {
 
 	dir, frag, err := fs.find("remove", name)
 	if err != nil {
+		if os.IsNotExist(err) {
+			// Like os.RemoveAll: what does not exist is already removed.
+			return nil
+		}
 		return err
 	}
 	if dir == nil {
